@@ -53,6 +53,6 @@ echo "== mutated tree: demo"; run_demo; echo "demo exit (mutated) = $?"
 fi
 for id in "$@"; do
   echo "== check $id"
-  (cd /verif && REPO_ROOT=$WT VERIF_NO_REDUCE=${VERIF_NO_REDUCE:-1} timeout 1800 bin/check $id quick 2>&1 | grep -E "^(OK|VIOLATION|INCONCLUSIVE|KNOWN|  kind)" | cut -c1-400 | head -6)
+  (cd ${VERIF_DIR:-/verif} && REPO_ROOT=$WT VERIF_NO_REDUCE=${VERIF_NO_REDUCE:-1} timeout 1800 bin/check $id quick 2>&1 | grep -E "^(OK|VIOLATION|INCONCLUSIVE|KNOWN|  kind)" | cut -c1-400 | head -6)
 done
 cd $WT && git checkout -q -- .
